@@ -5,6 +5,71 @@ from ..core import Ctx
 from . import pipeline
 
 
+def lookup_and_evaluate(arg):
+    """a moving ego, ground truth looked up by time (exact and interpolated) from the manager's loaded frames and evaluated, once with
+    everything stored in base_link and once in map; static objects, estimates 0.3 m off their ground truth"""
+    import math
+    import random
+
+    from perception_eval.evaluation.result.perception_frame_config import CriticalObjectFilterConfig, PerceptionPassFailConfig
+
+    from ..build import EgoPose, frame_gt, obj3d
+    from .tracking_manager import TARGETS, _cfg
+
+    seed, k = arg
+    rng = random.Random(seed * 7877 + k)
+    theta = rng.uniform(-3, 3)
+    e0 = (rng.uniform(-200, 200), rng.uniform(-200, 200))
+    vel = (rng.uniform(-8, 8), rng.uniform(-8, 8))       # m per 100 ms step
+    nobj = rng.randint(1, 4)
+    objs = [dict(id=j, x=e0[0] + rng.uniform(-30, 30), y=e0[1] + rng.uniform(-30, 30), yaw=rng.uniform(-3, 3), label=rng.choice(TARGETS)) for j in range(1, nobj + 1)]
+    times = [1_000_000 + i * 100_000 for i in range(3)]
+    queries = [times[0], times[0] + 40_000, times[1], times[1] + 50_000, times[2] - 30_000, times[2]]
+    out = {}
+    for rendering in ("base_link", "map"):
+        mgr = pipeline.manager_for(_cfg(), "map" if rendering == "map" else "base_link", task="detection")
+        crit = CriticalObjectFilterConfig(mgr.evaluator_config, TARGETS, max_x_position_list=[95.0, 95.0], max_y_position_list=[95.0, 95.0])
+        pfc = PerceptionPassFailConfig(mgr.evaluator_config, TARGETS, [2.0, 2.0])
+
+        def ego_at(t):
+            f = (t - times[0]) / 100_000.0
+            return EgoPose(e0[0] + vel[0] * f, e0[1] + vel[1] * f, 0.0, theta)
+
+        def render(o, ego, dx, uuid, score, t):
+            # object given in MAP coordinates -> stored in `rendering`
+            if rendering == "map":
+                ob = obj3d((o["x"] + dx, o["y"], 0.0), yaw=o["yaw"], label=o["label"], uuid=uuid, score=score, time=t)
+                from perception_eval.common.schema import FrameID
+
+                ob.frame_id = FrameID.MAP
+                return ob
+            c, s_ = math.cos(-ego.yaw), math.sin(-ego.yaw)
+            rx, ry = o["x"] + dx - ego.t[0], o["y"] - ego.t[1]
+            return obj3d((c * rx - s_ * ry, s_ * rx + c * ry, 0.0), yaw=o["yaw"] - ego.yaw, label=o["label"], uuid=uuid, score=score, time=t)
+
+        frames = []
+        for i, t in enumerate(times):
+            ego = ego_at(t)
+            frames.append(frame_gt([render(o, ego, 0.0, "g%d" % o["id"], 1.0, t) for o in objs], time=t, name=str(i), ego=ego))
+        mgr.ground_truth_frames = frames
+        res = []
+        for t in queries:
+            fgt = mgr.get_ground_truth_now_frame(t, 75_000, True)
+            if fgt is None:
+                res.append(None)
+                continue
+            ego = ego_at(t)
+            ests = [render(o, ego, 0.3, "e%d" % o["id"], 0.9 - 0.01 * o["id"], t) for o in objs]
+            try:
+                fr = mgr.add_frame_result(t, fgt, ests, crit, pfc)
+                pf = fr.pass_fail_result
+                res.append((len(pf.tp_object_results), len(pf.fp_object_results), len(pf.fn_objects), round(fr.metrics_score.maps[0].map, 6)))
+            except Exception as ex:
+                res.append("raised %s" % type(ex).__name__)
+        out[rendering] = res
+    return dict(queries=queries, times=times, nobj=nobj, results=out)
+
+
 def run(ctx: Ctx):
     def want(rendering, kind, fields):
         return rendering == "map"
@@ -35,6 +100,23 @@ def run(ctx: Ctx):
     from . import tracking_manager
 
     ctx.extra["tracking_histories_in_both_frames"] = tracking_manager.run(ctx, renderings=("base_link", "map"), n=25 if ctx.quick else 250, compare=True)
+    # ground truth obtained by time lookup (exact and interpolated) from the manager, moving ego, both storage frames
+    from ..core import pmap
+
+    scen = pmap(lookup_and_evaluate, [(ctx.seed, k) for k in range(40 if ctx.quick else 400)], chunks=1)
+    for k, sc in enumerate(scen):
+        ctx.traces += 1
+        ctx.evaluations += 1
+        ctx.nontrivial_count += 1
+        a, b = sc["results"]["base_link"], sc["results"]["map"]
+        for qi, (x, y) in enumerate(zip(a, b)):
+            interp = sc["queries"][qi] not in sc["times"]
+            if x != y:
+                ctx.violation("lookup-then-evaluate:ego-vs-map:%s" % ("interpolated" if interp else "exact"),
+                              "query %d (%s): ego-frame evaluation %s, map-frame evaluation %s" % (sc["queries"][qi], "interpolated" if interp else "exact", x, y), sc)
+            elif isinstance(x, tuple) and x[0] != sc["nobj"]:
+                ctx.violation("lookup-then-evaluate:not-all-matched", "query %d: %d objects 0.3 m from their ground truth, result %s" % (sc["queries"][qi], sc["nobj"], x), sc)
+    ctx.extra["lookup_then_evaluate_scenarios"] = len(scen)
     ctx.rule = (
         "Manager.tla describes a frame in ego-relative coordinates only. Every lattice scene TLC enumerates (families as in C03) is executed by the "
         "real manager with objects stored in base_link and stored in map under two ego poses (quarter turn + large translation; arbitrary yaw 0.7 "
